@@ -1849,7 +1849,7 @@ static void DecodeLD(Word Index) {
             OK    = True;
         }
         if (OK) {
-            OpSize = UInt16;
+            OpSize = Int16;
             DecodeAdr(&ArgStr[1], MModAcc | MModMem | MModImm);
             switch (AdrMode) {
             case ModAcc:
